@@ -73,6 +73,9 @@ def timing(g="g", l="l", basis_g="ground-rydberg", basis_l="digital", eom=True, 
     if faults:
         A += [
             ("delay", -4, g),
+            # refused delays AT REST (the wait for the fall time precedes the validation of the duration): nothing scheduled may move
+            ("delay", -4, g, True),
+            ("delay", -4, l, True),
             ("add", C52, "nochan"),
             ("add", C52, g, "bad-protocol"),
         ]
